@@ -32,7 +32,7 @@ def cases(tier, seed):
         add(gen.make_spec(lt, edges), both, 'flat1')
     # two nodes
     for lt, edges in gen.flat_circuits(2, 2 if tier == 'quick' else 3, gen.QUICK_NODES if tier != 'quick' else
-                                       ['L', 'SA', 'AO', 'T1', 'T2', 'T2R', 'TW', 'TU', 'LT', 'LS', 'PPT2', 'LO']):
+                                       ['L', 'SA', 'AO', 'XV', 'T1', 'T2', 'T2R', 'TW', 'TU', 'LT', 'LS', 'PPT2', 'LO']):
         s = gen.make_spec(lt, edges)
         add(s, both, 'flat2')
         if len(edges) >= 1 and lt[0][1] in ('L', 'SA', 'LT', 'T1') and lt[1][1] in ('T1', 'T2', 'LT', 'PPT2'):
